@@ -233,6 +233,7 @@ func orderKey(p *pkg) string {
 // showed, using only the logical package (declared list, states, tokens).
 func oracles(c *hx.Ctx, p *pkg, k kase, o *observation) {
 	E := p.expected()
+	P, slot := p.pages(), p.slots() // all pages (with the text-less ones); E index -> page index
 	var forbidden []part
 	for _, d := range p.Declared {
 		if d.State != stOK && d.Tok != "" {
@@ -264,7 +265,7 @@ func oracles(c *hx.Ctx, p *pkg, k kase, o *observation) {
 	desc := p.describe
 	// a member whose name is nearly a declared part's name is not taken for that part
 	nearNameOracle(c, p, k, o)
-	if len(E) == 0 {
+	if len(P) == 0 {
 		// nothing declared is readable: the reader must not present anything else instead
 		shown := false
 		for _, d := range forbidden {
@@ -331,14 +332,14 @@ func oracles(c *hx.Ctx, p *pkg, k kase, o *observation) {
 		})
 	}
 	// the front door: count, order in Text(), own page, leaks, decoys
-	c.Check("C18/page-count-"+f, o.opened && len(o.pages) == len(E), k, func() string {
-		return fmt.Sprintf("format reader reports %d part(s), %d declared readable (open error %q); %s", len(o.pages), len(E), o.openErr, desc())
+	c.Check("C18/page-count-"+f, o.opened && len(o.pages) == len(P), k, func() string {
+		return fmt.Sprintf("format reader reports %d part(s), %d declared readable (open error %q); %s", len(o.pages), len(P), o.openErr, desc())
 	})
-	c.Check("C18/page-count-"+f, o.tOpened && o.tCount == len(E), k, func() string {
-		return fmt.Sprintf("tabula.Open.PageCount()=%d (err %q), %d declared readable; %s", o.tCount, o.tErr, len(E), desc())
+	c.Check("C18/page-count-"+f, o.tOpened && o.tCount == len(P), k, func() string {
+		return fmt.Sprintf("tabula.Open.PageCount()=%d (err %q), %d declared readable; %s", o.tCount, o.tErr, len(P), desc())
 	})
-	c.Check("C18/page-count-"+f, len(o.docPages) == len(E), k, func() string {
-		return fmt.Sprintf("Document() has %d pages (err %q), %d declared readable; %s", len(o.docPages), o.tErr, len(E), desc())
+	c.Check("C18/page-count-"+f, len(o.docPages) == len(P), k, func() string {
+		return fmt.Sprintf("Document() has %d pages (err %q), %d declared readable; %s", len(o.docPages), o.tErr, len(P), desc())
 	})
 	pos, asc := -1, true
 	for _, d := range E {
@@ -355,10 +356,21 @@ func oracles(c *hx.Ctx, p *pkg, k kase, o *observation) {
 		return fmt.Sprintf("Text() does not carry the parts' tokens in declared order; %s", desc())
 	})
 	for i, d := range E {
-		own := i < len(o.docPages) && strings.Contains(o.docPages[i], d.Tok)
+		pi := slot[i] // the part's page: its position among ALL declared readable parts
+		own := pi < len(o.docPages) && strings.Contains(o.docPages[pi], d.Tok)
 		c.Check("C18/text-in-own-page-"+f, own, k, func() string {
-			return fmt.Sprintf("Document().Pages[%d] does not contain the text of declared part %d (%s); %s", i, i, d.Tok, desc())
+			got := "<no such page>"
+			if pi < len(o.docPages) {
+				got = clip(o.docPages[pi])
+			}
+			return fmt.Sprintf("Document().Pages[%d] = %q does not contain the text of declared readable part %d (%s); %s", pi, got, pi, d.Tok, desc())
 		})
+		// the format reader holds the part at the same position
+		if o.opened {
+			c.Check("C18/text-in-own-page-"+f, pi < len(o.pages) && strings.Contains(o.pages[pi], d.Tok), k, func() string {
+				return fmt.Sprintf("part %d of the format reader does not hold the text of declared readable part %d (%s); %s", pi, pi, d.Tok, desc())
+			})
+		}
 		// "and only there": the part's text is in one page only and once in Text()
 		inDoc, inRd := 0, 0
 		for _, pg := range o.docPages {
@@ -398,14 +410,17 @@ func oracles(c *hx.Ctx, p *pkg, k kase, o *observation) {
 				}
 			}
 			inText := strings.Count(o.tText, d.Tok)
-			good := len(rdAt) == 1 && rdAt[0] == i
+			good := len(rdAt) == 1 && rdAt[0] == slot[i]
 			if o.tOpened && o.tErr == "" {
-				good = good && len(docAt) == 1 && docAt[0] == i && inText == 1
+				good = good && len(docAt) == 1 && docAt[0] == slot[i] && inText == 1
 			}
 			c.Check("C18/epub-repeated-resource-is-one-part", good, k, func() string {
-				return fmt.Sprintf("resource %q (%s) is listed %d times in the spine (first as declared readable part %d): it is presented as reader part(s) %v, Document page(s) %v, %d time(s) in Text(); want exactly part %d, page %d, once; %s", d.Name, d.Tok, reps[d.Name]+1, i, rdAt, docAt, inText, i, i, desc())
+				return fmt.Sprintf("resource %q (%s) is listed %d times in the spine (first as declared readable part %d): it is presented as reader part(s) %v, Document page(s) %v, %d time(s) in Text(); want exactly part %d, page %d, once; %s", d.Name, d.Tok, reps[d.Name]+1, slot[i], rdAt, docAt, inText, slot[i], slot[i], desc())
 			})
 		}
+	}
+	if f == "epub" {
+		textlessOracle(c, p, k, o)
 	}
 	// speaker notes (pptx): the notes part's text belongs to its slide's page, and only there.
 	// Observed through Slide(i).Notes and through Text(), where a page's text runs from its
@@ -496,7 +511,11 @@ func oracles(c *hx.Ctx, p *pkg, k kase, o *observation) {
 // describe renders the logical package for failure messages.
 func (p *pkg) describe() string {
 	var b strings.Builder
-	fmt.Fprintf(&b, "%s/%s declared=[", p.Fmt, p.Variant)
+	fmt.Fprintf(&b, "%s/%s", p.Fmt, p.Variant)
+	if p.Flavour != "" {
+		fmt.Fprintf(&b, "/markup:%s", p.Flavour)
+	}
+	b.WriteString(" declared=[")
 	for _, d := range p.Declared {
 		fmt.Fprintf(&b, "{%s ref=%q name=%q st=%d", d.Tok, d.Ref, d.Name, d.State)
 		if p.Fmt == "xlsx" {
@@ -504,6 +523,9 @@ func (p *pkg) describe() string {
 		}
 		if d.NotesRef != "" {
 			fmt.Fprintf(&b, " notes=%s target=%q member=%q", d.NotesTok, d.NotesRef, d.NotesName)
+		}
+		if d.NoText != "" {
+			fmt.Fprintf(&b, " text-less:%s", d.NoText)
 		}
 		b.WriteString("} ")
 	}
@@ -591,7 +613,31 @@ func RunCase(c *hx.Ctx, idx int, keep bool) {
 		c.Count("note:" + n)
 	}
 	E := p.expected()
-	c.Count(fmt.Sprintf("%s/declared-readable=%d", p.Fmt, len(E)))
+	c.Count(fmt.Sprintf("%s/declared-readable=%d", p.Fmt, len(p.pages())))
+	if p.Fmt != "epub" {
+		fl := p.Flavour
+		if fl == "" {
+			fl = "transitional"
+		}
+		c.Count(p.Fmt + "/markup:" + fl)
+	}
+	if P := p.pages(); len(P) > len(E) {
+		c.Count(fmt.Sprintf("epub/text-less-chapters=%d", len(P)-len(E)))
+		for i, d := range P {
+			if d.NoText == "" {
+				continue
+			}
+			c.Count("epub/text-less-kind:" + d.NoText)
+			switch {
+			case i == len(P)-1:
+				c.Count("epub/text-less-chapter-last")
+			case i == 0:
+				c.Count("epub/text-less-chapter-first")
+			default:
+				c.Count("epub/text-less-chapter-inside")
+			}
+		}
+	}
 	unreadable := 0
 	for _, d := range p.Declared {
 		if d.State != stOK && d.State != stRepeat {
@@ -771,7 +817,7 @@ func hrefOps(c *hx.Ctx, from, n int) {
 }
 
 func Run(c *hx.Ctx) {
-	c.Rep.Rule = "packages: XLSX / PPTX / EPUB 2+3 written by the harness's own writers from a logical package = declared list (1-6 parts, each with a unique text token; states ok/missing/malformed/dangling/wrong-kind), decoy parts (unreferenced; some listed in rels/manifest but not declared), XLSX sheetId values a random permutation (non-ascending, sparse) unrelated to position and to r:id, PPTX speaker-notes parts with their own unique token behind the slide's own relationship part (for readable, unreadable and decoy slides; conventional/renamed/absolute targets, numbered independently of the slides), part paths nested/renamed/absolute/with dot segments, file numbers a random permutation of the declared order, ZIP member order another random permutation, optional parts (rels, sharedStrings, docProps, mimetype, NCX, nav) randomly absent; hrefs percent-encoded in 4 styles incl. space, unicode, '+', '%', '#'; near-name members in a quarter of the packages (1-2 members whose name differs from a declared part's only in the letter case of one path segment, in NFC/NFD form, or that is the EPUB href without percent-decoding; as a second declared part, an unreferenced left-over or a listed left-over, on either side in ZIP order, also beside a missing declared member). call sequences: on one opened reader of every package that opens, 2-6 generated calls (xlsx ExtractOptions.Sheets / pptx ExtractOptions.SlideNumbers selections through TextWithOptions, MarkdownWithOptions, MarkdownWithRAGOptions: a single part that is not the first, suffix, ascending non-prefix subset, reversed list, permutation, subset in any order, prefix, and lenient selections with out-of-range or repeated indices; epub TextWithOptions/MarkdownWithOptions with the 4 navigation modes; Text, Markdown, Document, part accessors, Tables/SheetByName/Metadata interleaved, repeated), the statement evaluated on every accessor after every call and against a fresh reader, and the model compared once more with the used reader. reader API model (api.go): per PPTX package op c18.pptxn (which notes part each presented slide carries; slide relationship parts are in the parse table with their Types, notes parts as a kind of their own; one package in five has an irregular notes plumbing: notes part or slide relationship part not well-formed, notesSlide relationship naming a slide, root-relative target without '/', two notesSlide relationships, ISO-strict relationship type, targets with dot segments / doubled or trailing slashes / percent signs, with a notes part put where they lead or under the literal name; fallback decks carry candidate names that are not plain slideN.xml, some with notes), and per package op c18.api: ONE opened reader, a history of 3-7 calls (count, names, Sheet/Slide(i) with i from -1 to n, SheetByName, TextWithOptions / MarkdownWithOptions / MarkdownWithRAGOptions with the selection classes above or none and random flags and delimiters, Document, Chapters, epub navigation modes -1..9) interleaved with up to two front-door calls tabula.Open(f).PageCount() / .Pages(..).ExcludeHeaders().ExcludeFooters().Text() / .Document(); replies compared byte for byte (texts) or as sequences of part ids found through the unique tokens (markdown, pages); what each part's bytes parse to is passed to the model keyed by content id (sheet grids and slide bodies from the reader, notes text, chapter text/markdown/page count from htmldoc run on the member bytes the harness wrote); slides carry bulleted, numbered and indented paragraphs and footer / slide-number / date / header placeholders chosen by a hash of the token; one package in sixteen carries members the front door's content sniffing looks at (a mimetype member naming this, another or no known format, META-INF/container.xml or another OOXML main part beside the package's own: refused by tabula.Open where the content names another format, no oracle verdict there, the model's admission step must agree); one EPUB in twelve has a blank page (empty body, no token) in the spine (correspondence only); three EPUBs in ten have 1-3 spine entries that list an already listed resource again (repeats.go: the same idref again, a second manifest item with the same href, a second manifest item whose href is spelled differently — a needlessly percent-encoded character, a './' segment, an 'x/../' detour — and resolves to the same member; right behind the first listing or further down; either of the two items first; also of a resource whose member is missing; one in twelve of those lists the resource 40-300 times): such a resource is one part at its first position in the logical package, which is what all oracles expect. href ops: structured (reference built from the member it denotes) and junk strings. non-trivial = the package opened with at least one part; distinct by op line"
+	c.Rep.Rule = "packages: XLSX / PPTX / EPUB 2+3 written by the harness's own writers from a logical package = declared list (1-6 parts, each with a unique text token; states ok/missing/malformed/dangling/wrong-kind), decoy parts (unreferenced; some listed in rels/manifest but not declared), XLSX/PPTX markup in namespace flavours from their own stream (flavour.go; 45% transitional, 20% ISO/IEC 29500 Strict = purl.oclc.org namespaces for main/drawing/relationships and every relationship Type with conformance=\"strict\", the rest the relationships namespace under another prefix, declared on each referencing element instead of the root, the main namespace prefixed (xlsx) or default (pptx), alone or combined with Strict): same declaration, same expectations, XLSX sheetId values a random permutation (non-ascending, sparse) unrelated to position and to r:id, PPTX speaker-notes parts with their own unique token behind the slide's own relationship part (for readable, unreadable and decoy slides; conventional/renamed/absolute targets, numbered independently of the slides), part paths nested/renamed/absolute/with dot segments, file numbers a random permutation of the declared order, ZIP member order another random permutation, optional parts (rels, sharedStrings, docProps, mimetype, NCX, nav) randomly absent; hrefs percent-encoded in 4 styles incl. space, unicode, '+', '%', '#'; near-name members in a quarter of the packages (1-2 members whose name differs from a declared part's only in the letter case of one path segment, in NFC/NFD form, or that is the EPUB href without percent-decoding; as a second declared part, an unreferenced left-over or a listed left-over, on either side in ZIP order, also beside a missing declared member). call sequences: on one opened reader of every package that opens, 2-6 generated calls (xlsx ExtractOptions.Sheets / pptx ExtractOptions.SlideNumbers selections through TextWithOptions, MarkdownWithOptions, MarkdownWithRAGOptions: a single part that is not the first, suffix, ascending non-prefix subset, reversed list, permutation, subset in any order, prefix, and lenient selections with out-of-range or repeated indices; epub TextWithOptions/MarkdownWithOptions with the 4 navigation modes; Text, Markdown, Document, part accessors, Tables/SheetByName/Metadata interleaved, repeated), the statement evaluated on every accessor after every call and against a fresh reader, and the model compared once more with the used reader. reader API model (api.go): per PPTX package op c18.pptxn (which notes part each presented slide carries; slide relationship parts are in the parse table with their Types, notes parts as a kind of their own; one package in five has an irregular notes plumbing: notes part or slide relationship part not well-formed, notesSlide relationship naming a slide, root-relative target without '/', two notesSlide relationships, ISO-strict relationship type, targets with dot segments / doubled or trailing slashes / percent signs, with a notes part put where they lead or under the literal name; fallback decks carry candidate names that are not plain slideN.xml, some with notes), and per package op c18.api: ONE opened reader, a history of 3-7 calls (count, names, Sheet/Slide(i) with i from -1 to n, SheetByName, TextWithOptions / MarkdownWithOptions / MarkdownWithRAGOptions with the selection classes above or none and random flags and delimiters, Document, Chapters, epub navigation modes -1..9) interleaved with up to two front-door calls tabula.Open(f).PageCount() / .Pages(..).ExcludeHeaders().ExcludeFooters().Text() / .Document(); replies compared byte for byte (texts) or as sequences of part ids found through the unique tokens (markdown, pages); what each part's bytes parse to is passed to the model keyed by content id (sheet grids and slide bodies from the reader, notes text, chapter text/markdown/page count from htmldoc run on the member bytes the harness wrote); slides carry bulleted, numbered and indented paragraphs and footer / slide-number / date / header placeholders chosen by a hash of the token; one package in sixteen carries members the front door's content sniffing looks at (a mimetype member naming this, another or no known format, META-INF/container.xml or another OOXML main part beside the package's own: refused by tabula.Open where the content names another format, no oracle verdict there, the model's admission step must agree); one EPUB in four has 1-2 text-less chapters in the spine (textless.go: empty body, white space, an image only, an SVG cover, a comment only, empty blocks; first, inside or last; no token): declared readable parts, i.e. pages of their own — counted, held by the reader at their position, a Document page there that shows no part's text, every later chapter on its own page (p.pages()/p.slots()); three EPUBs in ten have 1-3 spine entries that list an already listed resource again (repeats.go: the same idref again, a second manifest item with the same href, a second manifest item whose href is spelled differently — a needlessly percent-encoded character, a './' segment, an 'x/../' detour — and resolves to the same member; right behind the first listing or further down; either of the two items first; also of a resource whose member is missing; one in twelve of those lists the resource 40-300 times): such a resource is one part at its first position in the logical package, which is what all oracles expect. href ops: structured (reference built from the member it denotes) and junk strings. non-trivial = the package opened with at least one part; distinct by op line"
 	n := c.N(660, 9900)          // (600, 9000) before the correspondence-only variants of api.go took a share of the packages
 	only := os.Getenv("C18_FMT") // debugging aid: restrict the stream to one format
 	for i := 0; i < n; i++ {
